@@ -1,13 +1,15 @@
+\* Not part of the check: a decoder that keeps the DATA attribute as a reference into the receive buffer
+\* ("zero copy").  TLC exhibits Encode, Decode, ReuseBuffer, Observe violating ValueStable.
 SPECIFICATION Spec
 CONSTANTS
   Mode = "rotate"
-  Variants = {0, 1, 2, 3, 4, 5}
+  Variants = {1}
   KeyLens <- KeyLensAll
-  TamperMode = "singles"
+  TamperMode = "none"
   TamperVariants = {1, 4}
   TamperAllVariants = {}
   HoldMode = "singles"
-  Aliased = {}
+  Aliased = {"Data"}
   HelperKeyMax = 300
   HelperTexts = {0, 1, 55, 64, 150}
 INVARIANTS TypeOK Integrity Fingerprint RoundTrip OtherKeyRejected ProtectedFlipRejected CoveredFlipRejected EncodedFrame ValueStable
